@@ -128,8 +128,72 @@ def spec_seq(fn):
     return semantic_conds(build(fn))
 
 
-def compare(F, path, specfn, gen=(), extra=None):
-    """-> dict(ok, diff, anomalies, opaque, code, spec)"""
+# ---------------------------------------------------------------- projections: compare only what a property is about
+def _map_nested(st, fn):
+    """apply fn to every nested seq of a step, returning a new step"""
+    out = []
+    for x in st:
+        if isinstance(x, dict):
+            out.append(fn(x))
+        elif isinstance(x, list) and x and all(isinstance(y, dict) for y in x):
+            out.append([fn(y) for y in x])
+        elif isinstance(x, list) and x and all(isinstance(y, list) and len(y) == 2 and isinstance(y[1], dict) for y in x):
+            out.append([[y[0], fn(y[1])] for y in x])
+        else:
+            out.append(x)
+    return out
+
+
+CUT = {"steps": [], "ret": ["ok", ["cut"]]}
+
+
+def cut_regions(seq, depth):
+    """replace the grammar inside length-delimited regions nested `depth` or deeper by a placeholder:
+    the property that uses this projection is about the framing above that depth, not about what the regions contain"""
+    def rec(sq, d):
+        steps = []
+        for st in sq["steps"]:
+            if st[0] == "sub":
+                inner = CUT if d + 1 > depth else rec(st[3], d + 1)
+                steps.append([st[0], st[1], st[2], inner])
+            else:
+                steps.append(_map_nested(st, lambda s: rec(s, d)))
+        return {"steps": steps, "ret": sq["ret"]}
+    from .pir import renumber
+    return renumber(rec(seq, 0))
+
+
+def skeleton(seq):
+    """consumption skeleton: which wire elements are read with which widths/modes, which integer delimits which bytes,
+    which region confines which nested grammar, under which wrappers - without guards, values, dispatch constants.
+    This is what locality (C06) depends on."""
+    def val(r):
+        return ["ok", ["value"]] if r and r[0] in ("ok", "okwhole") else (["err", None] if r else None)
+
+    def rec(sq):
+        steps = []
+        for st in sq["steps"]:
+            k = st[0]
+            if k == "guard":
+                continue
+            if k == "switch":
+                arms = sorted(set(json.dumps(rec(s), sort_keys=True) for _, s in st[3]))
+                # arms with identical consumption are merged: which constant selects which arm is not a locality matter
+                steps.append(["switch", st[1], ["scrutinee"], [[i, json.loads(a)] for i, a in enumerate(arms)], rec(st[4])])
+            elif k == "ite":
+                two = sorted([json.dumps(rec(st[3]), sort_keys=True), json.dumps(rec(st[4]), sort_keys=True)])
+                steps.append(["ite", st[1], ["condition"], json.loads(two[0]), json.loads(two[1])])
+            elif k == "cond":
+                steps.append(["cond", st[1], ["condition"], rec(st[3])])
+            else:
+                steps.append(_map_nested(st, rec))
+        return {"steps": steps, "ret": val(sq["ret"])}
+    from .pir import renumber
+    return renumber(rec(seq))
+
+
+def compare(F, path, specfn, gen=(), extra=None, project=None):
+    """-> dict(ok, diff, anomalies, opaque, code, spec).  project: None | ("cut", depth) | ("skeleton",)"""
     try:
         cs, ev = code_seq(F, path, gen, extra)
     except KeyError:
@@ -137,6 +201,13 @@ def compare(F, path, specfn, gen=(), extra=None):
     except Opaque as o:
         return {"ok": False, "diff": "unrecognised construct in %s: %s" % (path, o), "unrecognised": True}
     ss = spec_seq(specfn)
+    full_cs = cs
+    if project:
+        if project[0] == "cut":
+            cs, ss = cut_regions(cs, project[1]), cut_regions(ss, project[1])
+        elif project[0] == "skeleton":
+            cs, ss = skeleton(cs), skeleton(ss)
     d = diff(ss, cs)
     opq = find_opaque(cs)
-    return {"ok": d is None and not opq and not ev.anomalies, "diff": d, "anomalies": ev.anomalies, "opaque": opq[:3], "code": cs, "spec": ss, "called": sorted(ev.called)}
+    anomalies = ev.anomalies if not project or project[0] != "cut" else []
+    return {"ok": d is None and not opq and not anomalies, "diff": d, "anomalies": anomalies, "opaque": opq[:3], "code": cs, "full_code": full_cs, "spec": ss, "called": sorted(ev.called)}
